@@ -78,21 +78,31 @@ class _Ref:
         NDp = self.ND * 10.0 ** (dz * _std(self.TN)) * (SDp / self.SD) ** (-self.k1)
         return SDp, NDp
 
+    @staticmethod
+    def _pow(x, e):
+        # math.pow raises where numpy returns inf / 0 (far below the knee with a steep k_2): same IEEE result here
+        try:
+            return x ** e
+        except OverflowError:
+            return math.inf
+        except ZeroDivisionError:
+            return math.inf
+
     def cycles(self, S, p, above):
         SDp, NDp = self.knee(p)
         if above:
-            return NDp * (S / SDp) ** (-self.k1)
+            return NDp * self._pow(S / SDp, -self.k1)
         if math.isinf(self.k2):
             return math.inf
-        return NDp * (S / SDp) ** (-self.k2)
+        return NDp * self._pow(S / SDp, -self.k2)
 
     def load(self, N, p, beyond):
         SDp, NDp = self.knee(p)
         if not beyond:
-            return SDp * (N / NDp) ** (-1.0 / self.k1)
+            return SDp * self._pow(N / NDp, -1.0 / self.k1)
         if math.isinf(self.k2):
             return SDp
-        return SDp * (N / NDp) ** (-1.0 / self.k2)
+        return SDp * self._pow(N / NDp, -1.0 / self.k2)
 
 
 def _pd_curve(c, integer=False):
